@@ -476,6 +476,17 @@ impl Broker {
         }
     }
 
+    /// Send PUBREL for every broker message whose PUBREC has arrived.
+    pub fn release_all(&mut self, tr: &mut Transport) {
+        let pids: Vec<u16> = self.b_inflight.iter().filter(|b| b.state == BState::NeedRel).map(|b| b.pid).collect();
+        for pid in pids {
+            if let Some(b) = self.b_inflight.iter_mut().find(|b| b.pid == pid) {
+                b.state = BState::AwaitComp;
+            }
+            self.send(tr, Packet::PubRel(Ack::short(pid)));
+        }
+    }
+
     pub fn deliver_at(&mut self, tr: &mut Transport, at: u64, qos: u8, payload: &PayloadSpec) {
         if !self.connack_sent {
             return;
@@ -747,6 +758,7 @@ impl World {
 pub fn apply_io(t: &mut Transport, io: &IoCfg) {
     t.read_chunks = Chunker::new(io.read_chunks.clone());
     t.write_chunks = Chunker::new(io.write_chunks.clone());
+    t.read_cuts = io.read_cuts.iter().map(|c| *c as usize).collect();
     t.pend_first = io.pend_first;
 }
 
@@ -1097,6 +1109,15 @@ fn do_step(w: &mut World, tr: &Tr, conn: &mut Connection<'_, '_, SimIo>, at: (us
             t.faults.push(Fault { at_call, eof: *eof });
         }
         Step::Eof => tr.borrow_mut().eof = true,
+        Step::SetBroker(mode) => {
+            w.broker.pump(&mut tr.borrow_mut());
+            w.broker.mode = *mode;
+            if *mode == BrokerMode::AutoAck {
+                // a responsive broker also answers what it had left unanswered so far
+                w.broker.act(&mut tr.borrow_mut(), &BrokerAct::AckAll { reverse: false });
+                w.broker.release_all(&mut tr.borrow_mut());
+            }
+        }
         Step::PollFor { ms } => {
             let end = clock::now() + *ms as u64 * clock::TICKS_PER_MS;
             let mut guard = 0u32;
